@@ -435,6 +435,86 @@ def c15_boundary_channels(rec, rng, kind, case):
             blk, _ = lib.dec(kind, lib.fmt_of(blk), lib.enc(blk))
 
 
+def c15_platcal_epilogue(rec, rng, case):
+    """platform calibration: (a) bulk add with explicit channels and None mixed in one list; (b) bulk assignment of
+    iterables derived from the block itself (the block, a filtering generator over it, its platforms list, reversed,
+    a view that asks the block only when iterated).  Own RNG: the main sequences are not shifted."""
+    kind = "platCal"
+    PC = tdfForcePlatformsCalibration.ForcePlatformsCalibrationDataBlock
+    blk = PC()
+    steps = []
+
+    def V(key, msg):
+        rec.violation("C15", f"{kind}:{key}", f"[{steps}] {msg}", dict(case, steps=list(steps), epilogue=True))
+    used, items = [], []
+    for _batch in range(rng.randint(1, 3)):
+        k = rng.randint(1, 4)
+        its = [_mk_item(rng, kind, 1) for _ in range(k)]
+        chs = []
+        for _ in range(k):
+            if rng.random() < 0.5:
+                chs.append(None)
+            else:
+                # explicit channels sit right above the highest channel in use, where an automatic choice would land too
+                c = (max(used + [x for x in chs if x is not None] + [-1]) + rng.choice([1, 1, 2, 3]))
+                chs.append(c)
+        if all(c is None for c in chs):
+            chs[rng.randrange(k)] = max(used + [-1]) + 1
+        steps.append(f"add_platforms({k}, channels={chs})")
+        refused = None
+        try:
+            blk.add_platforms(its, chs)
+        except ValueError as e:
+            # an automatic choice earlier in the list may take the channel a later explicit entry names: "refused with
+            # ValueError if taken" - then only the invariants are demanded (whether the earlier ones stay is not said)
+            refused = e
+            rec.count("c15:bulk-add-mixed:refused-with-ValueError(invariants only)")
+        except Exception as e:
+            V("bulk-add:refused", f"mixed explicit / automatic channels: {type(e).__name__}: {e}"); return
+        ch, got, oerr = observed_pairs(kind, blk)
+        rec.count("oracle:C15.bulk-add-mixed-explicit-and-automatic")
+        if oerr:
+            V("bulk-add:channel-list-and-items-disagree", oerr); return
+        if len(set(ch)) != len(ch):
+            V("bulk-add:duplicate-channel", f"{ch}"); return
+        if refused is not None:
+            if ch[:len(used)] != used or ident(got[:len(items)]) != ident(items):
+                V("bulk-add:pairs", "previous pairs changed by a refused bulk add"); return
+            used, items = list(ch), list(got)
+            continue
+        if ident(got) != ident(items + its) or ch[:len(used)] != used:
+            V("bulk-add:pairs", "previous pairs changed or items not appended in order"); return
+        for c_want, c_got in zip(chs, ch[len(used):]):
+            if c_want is not None and c_want != c_got:
+                V("bulk-add:explicit-channels-not-honoured", f"{ch[len(used):]} for {chs}"); return
+        used, items = list(ch), list(got)
+    for _round in range(2):
+        form = rng.choice(["block", "genexp-filter", "platforms-list", "reversed", "lazy-view", "iter(block)"])
+        pairs = list(zip(used, items))
+        keep = [i for i in range(len(pairs)) if rng.random() < 0.7]
+
+        class _Lazy:
+            def __iter__(self_):
+                return iter(blk.platforms)
+        want, arg = {
+            "block": (pairs, blk), "iter(block)": (pairs, iter(blk)), "platforms-list": (pairs, blk.platforms),
+            "reversed": (pairs[::-1], reversed(blk.platforms)), "lazy-view": (pairs, _Lazy()),
+            "genexp-filter": ([pairs[i] for i in keep], ((c, p) for i, (c, p) in enumerate(blk) if i in keep)),
+        }[form]
+        steps.append(f"platforms=<{form} of the block's own pairs>")
+        try:
+            blk.platforms = arg
+        except Exception as e:
+            V("bulk-assign:valid-pairs-refused", f"{form}: {type(e).__name__}: {e}"); return
+        ch, got, oerr = observed_pairs(kind, blk)
+        rec.count("oracle:C15.bulk-assignment-from-own-pairs")
+        if oerr:
+            V("bulk-assign:channel-list-and-items-disagree", oerr); return
+        if ch != [c for c, _ in want] or ident(got) != ident([p for _, p in want]):
+            V("bulk-assign:pairs-not-installed", f"{form}: channels {ch} installed, {[c for c, _ in want]} assigned"); return
+        used, items = list(ch), list(got)
+
+
 def shard_c15(desc, rec):
     rng = random.Random(desc["seed"] * 73 + desc.get("shard", 0))
     for i in range(desc["n"]):
@@ -445,6 +525,8 @@ def shard_c15(desc, rec):
         rec.case(case, True, sample=case if i % 150 == 0 else None)
         rec.count(f"c15:{kind}:{start}")
         c15_sequence(rec, rng, kind, start, length, case)
+        if kind == "platCal":
+            c15_platcal_epilogue(rec, random.Random(desc["seed"] * 6151 + desc.get("shard", 0) * 193 + i), case)
     brng = random.Random(desc["seed"] * 73 + 5)
     for kind in ("emg", "platCal", "platData"):
         c15_boundary_channels(rec, brng, kind, {"driver": "c15", "kind": kind, "seed": desc["seed"], "shard": desc.get("shard", 0),
